@@ -16,11 +16,13 @@ PROVED IN FULL (no well-formedness hypothesis):
   * `oom_null`                                   — a refused mmap ⇒ null result, allocator state and
                                                    live set exactly unchanged (so every later request
                                                    behaves as if the refused call had not happened)
+  * `wf_step_refused`                            — `wf_step` for every operation during which the OS
+                                                   refused memory
   * `free_never_asks_for_memory`, `realloc_copy` — glue facts of the entry points
   * `wf_init`
 PROVED FROM `WF` OF THE STATE BEFORE THE CALL (genuine step theorems, all alignments, with or
 without an OS call, under the mmap contract `OsContract` for the answer received):
-  * `alloc_fresh_from_pre`, `calloc_fresh_from_pre` — the new block is carved from a chunk that was
+  * `alloc_fresh_from_pre`, `calloc_fresh_from_pre`, `realloc_fresh_from_pre` (moving case) — the new block is carved from a chunk that was
     free and large enough (small bin / tree bin / dv / top) or from the mapping just served, and for
     over-aligned requests lies inside the chunk obtained for the padded request; so it overlaps no
     previously live block
@@ -289,6 +291,76 @@ theorem calloc_fresh_from_pre (hs hs' : Hist) (hwf : WF hs) (id size k : Nat) (o
     simp only [Prod.mk.injEq] at hm
     exact absurd hm.2.1.symm hp
 
+/-- **realloc_fresh** — from `WF` of the state BEFORE the call: when a reallocation moves the block
+(a copy is made), the new block overlaps no block that was live before the call — including the
+old block, which is freed only after the copy -/
+theorem realloc_fresh_from_pre (hs hs' : Hist) (hwf : WF hs) (id newsize k : Nat) (os : List OsDir) (out : Out) (b : Block)
+    (hb : findBlock hs.live id = some b) (hal : b.align = 2 ^ k) (hk : k ≤ 32)
+    (h : hs.step (.realloc id newsize) os = .ok (hs', out))
+    (hp : out.ptr ≠ 0) (hmoved : out.copy ≠ none) (hsz : 0 < newsize) (hmax : newsize < MAX_REQUEST)
+    (hos : OsContract hs os newsize (2 ^ k)) :
+    ∀ b' ∈ hs.live, out.ptr + newsize ≤ b'.ptr ∨ b'.ptr + b'.size ≤ out.ptr := by
+  unfold Hist.step at h
+  dsimp only at h
+  rw [hb] at h
+  dsimp only at h
+  msimp at h
+  obtain ⟨⟨s1, p, c⟩, hm, _, _, h⟩ := h
+  simp only [Prod.mk.injEq] at h
+  obtain ⟨h1, h2⟩ := h
+  subst h1; subst h2
+  simp only at hp hmoved
+  unfold realloc at hm
+  rw [hal] at hm
+  split at hm
+  · rename_i hle
+    -- ordinary alignment: try in place, else inner_malloc + copy + free
+    unfold OsContract reqOf at hos
+    rw [if_pos hle] at hos
+    unfold inner_realloc at hm
+    split at hm
+    · msimp at hm
+      simp only [Prod.mk.injEq] at hm
+      exact absurd hm.2.1.symm hp
+    · dsimp only at hm
+      msimp at hm
+      obtain ⟨_, _, r, hr, hm⟩ := hm
+      split at hm
+      · msimp at hm
+        simp only [Prod.mk.injEq] at hm
+        exact absurd hm.2.2.symm hmoved
+      · msimp at hm
+        obtain ⟨⟨s2, p2⟩, him, hm⟩ := hm
+        dsimp only at hm
+        split at hm
+        · rename_i hp2
+          msimp at hm
+          obtain ⟨e, _, _, _, _, _, s3, hf, hm⟩ := hm
+          simp only [Prod.mk.injEq] at hm
+          obtain ⟨_, hpp, _⟩ := hm
+          subst hpp
+          exact (inner_malloc_fresh_all hwf (s := (hs.start os).tag "realloc-move") ⟨rfl, rfl, rfl, rfl, rfl, rfl, rfl⟩ rfl
+            him hp2 hsz hmax hos).2.2
+        · msimp at hm
+          simp only [Prod.mk.injEq] at hm
+          exact absurd hm.2.1.symm hp
+  · -- over-aligned: malloc + copy + free
+    msimp at hm
+    obtain ⟨⟨s2, p2⟩, hmal, hm⟩ := hm
+    dsimp only at hm
+    split at hm
+    · rename_i hp2
+      msimp at hm
+      obtain ⟨s3, hf, hm⟩ := hm
+      simp only [Prod.mk.injEq] at hm
+      obtain ⟨_, hpp, _⟩ := hm
+      subst hpp
+      exact malloc_fresh hwf (s := (hs.start os).tag "realloc-overaligned") ⟨rfl, rfl, rfl, rfl, rfl, rfl, rfl⟩ rfl hk
+        hmal hp2 hsz hmax hos
+    · msimp at hm
+      simp only [Prod.mk.injEq] at hm
+      exact absurd hm.2.1.symm hp
+
 /-- **oom_null** (full): if the OS refused an mmap during an operation, the operation returned null,
 the allocator's state is exactly what it was before the call and the set of live blocks is
 unchanged — nothing is lost, and every later operation behaves as if the refused call had never
@@ -297,6 +369,22 @@ theorem oom_null (hs hs' : Hist) (op : Op) (os : List OsDir) (out : Out)
     (h : hs.step op os = .ok (hs', out)) (hr : refused hs'.st.evs = true) :
     out.ptr = 0 ∧ hs'.st.core = hs.st.core ∧ hs'.live = hs.live :=
   step_refusal h hr
+
+/-- `WF` does not look at the ghost fields (branch tags, recorded OS calls) nor at the environment queue -/
+theorem wfb_core (hs : Hist) : wfb hs = wfb { st := hs.st.core, live := hs.live } := rfl
+
+theorem WF_of_core_eq {hs hs' : Hist} (hc : hs'.st.core = hs.st.core) (hl : hs'.live = hs.live) (h : WF hs) : WF hs' := by
+  unfold WF at *
+  rw [wfb_core] at h ⊢
+  rw [hc, hl]
+  exact h
+
+/-- **wf_step, refusal case** (full): an operation during which the OS refused memory preserves `WF`
+(it leaves the allocator exactly as it was) -/
+theorem wf_step_refused (hs hs' : Hist) (op : Op) (os : List OsDir) (out : Out) (hwf : WF hs)
+    (h : hs.step op os = .ok (hs', out)) (hr : refused hs'.st.evs = true) : WF hs' := by
+  obtain ⟨_, hc, hl⟩ := step_refusal h hr
+  exact WF_of_core_eq hc hl hwf
 
 /-- `free` never asks the OS for memory, so it cannot be refused any -/
 theorem free_never_asks_for_memory (hs hs' : Hist) (id : Nat) (os : List OsDir) (out : Out)
@@ -352,6 +440,30 @@ example : ∃ hs' out, demoState.step (.realloc 1 100000) [.m (some 524288)] = .
     (p := fun v => decide (v.2.ptr ≠ 0) && wfb v.1 && decide (v.2.copy ≠ none)) (by decide)
   simp only [Bool.and_eq_true, decide_eq_true_eq] at hp
   exact ⟨v.1, v.2, hv, hp.1.1, hp.1.2, hp.2⟩
+
+set_option maxRecDepth 20000 in
+/-- hypotheses of `realloc_fresh_from_pre`: block 1 (5000 bytes, align 8 = 2^3) grows to 100000 and moves
+into a mapping the OS serves below the heap -/
+example : ∃ hs' out b, findBlock demoState.live 1 = some b ∧ b.align = 2 ^ 3 ∧
+    demoState.step (.realloc 1 100000) [.m (some 524288)] = .ok (hs', out) ∧ out.ptr ≠ 0 ∧ out.copy ≠ none ∧
+    OsContract demoState [.m (some 524288)] 100000 (2 ^ 3) := by
+  obtain ⟨v, hv, hp⟩ := ok_of_matchB (x := demoState.step (.realloc 1 100000) [.m (some 524288)])
+    (p := fun v => decide (v.2.ptr ≠ 0) && decide (v.2.copy ≠ none)) (by decide)
+  simp only [Bool.and_eq_true, decide_eq_true_eq] at hp
+  refine ⟨v.1, v.2, { id := 1, ptr := 1049024, size := 5000, align := 8 }, by decide, by decide, hv, hp.1, hp.2, ?_⟩
+  intro tbase q hq
+  injection hq with h1 _
+  injection h1 with h1
+  injection h1 with h1
+  subst h1
+  refine ⟨by decide, by decide, by decide, ?_⟩
+  intro g hg
+  have : demoState.st.segs = [{ base := 1048576, size := 65536, recAt := 0 }] := by decide
+  rw [this] at hg
+  simp only [List.mem_singleton] at hg
+  subst hg
+  left
+  decide
 
 set_option maxRecDepth 20000 in
 /-- hypotheses of `oom_null`: the same request with the OS refusing the mapping -/
